@@ -4,6 +4,7 @@ import (
 	"fmt"
 	"go/token"
 	"go/types"
+	"strings"
 
 	"cachelint/internal/core"
 	"cachelint/internal/sym"
@@ -14,7 +15,7 @@ import (
 func init() {
 	Registry["C07"] = C07
 	Metas["C07"] = Meta{
-		Explanation: "Decides the traversal skeleton C07 relies on, on every path of Map.Range / MapOf.Range: (Q1) all buckets walked derive from one atomic load of the table pointer made before the loops; per root bucket the entries are appended to the intermediate slice only while that bucket's lock is held, the lock is released only at the end of the chain, and the visitor is called only with the lock released; the visitor's arguments come from the collected slice; the slice carried to the next bucket is a zero-length reslice (no entry is visited twice); a false visitor result leads to return with no further visitor call; (Q2) key and value pointers collected together are slot contents read under the lock from the same slot of the same bucket (a collected slot address, to be re-read after the unlock, is rejected); (Q3) the cache-level Range ignores a nil visitor before touching the map, calls the visitor only on the not-expired outcome of an expiry test of the visited entry against a clock read inside this Range call, passes that entry's key and value, returns the visitor's verdict, and Items stores exactly the visited pairs and never stops early; (Q4) scan loops cover all slots and whole chains (C11.L2) and a concurrent resize leaves the walked generation intact (C03/C04.P6). NOT decided: at-most-once / at-least-once over real interleavings (needs the protocol premises of C03/C04).",
+		Explanation: "Decides the traversal skeleton C07 relies on, on every path of Map.Range / MapOf.Range: (Q1) all buckets walked derive from one atomic load of the table pointer made before the loops; per root bucket the entries are appended to the intermediate slice only while that bucket's lock is held, the lock is released only at the end of the chain, and the visitor is called only with the lock released; the visitor's arguments come from the collected slice; the slice carried to the next bucket is a zero-length reslice (no entry is visited twice); a false visitor result leads to return with no further visitor call; (Q2) key and value pointers collected together are slot contents read under the lock from the same slot of the same bucket (a collected slot address, to be re-read after the unlock, is rejected); (Q3) the cache-level Range ignores a nil visitor before touching the map, calls the visitor only on the not-expired outcome of an expiry test of the visited entry against a clock read inside this Range call, passes that entry's key and value, returns the visitor's verdict, and Items stores exactly the visited pairs and never stops early; (Q4) scan loops cover all slots and whole chains (C11.L2) and a concurrent resize leaves the walked generation intact (the copy routine writes nothing into its source chain, C03/C04.P6); (Q6) every return of Range is reached because the bucket array is exhausted, because the visitor said stop or because there is no visitor - never on another condition (a budget of entries taken from the size counter, a deadline). NOT decided: at-most-once / at-least-once over real interleavings (needs the protocol premises of C03/C04).",
 		Rule:        "one obligation per (rule, function, site); non-trivial = decided from lockset facts, dominance, loop-carried value shape or role evaluation",
 		Assumptions: []string{"C13 lock pairing; C03/C04 P3/P5/P6"},
 	}
@@ -27,6 +28,7 @@ func C07(r *Run) *core.Report {
 	}
 	for _, mm := range r.M.Maps {
 		c07Q1(r, rep, mm)
+		c07Q6(r, rep, mm)
 	}
 	c07Q3(r, rep)
 	// Q4: borrowed coverage rules
@@ -39,6 +41,21 @@ func C07(r *Run) *core.Report {
 			c.Rule = "C07.Q4"
 			rep.Obs = append(rep.Obs, &c)
 			n++
+		}
+	}
+	// ... and a concurrent resize leaves the generation a traversal walks intact: the copy routine writes nothing into
+	// its source chain (C03/C04.P6)
+	for idx, mm := range r.M.Maps {
+		tmp6 := core.NewReport("C07")
+		p6Copy(r, tmp6, []string{"C03", "C04"}[idx], mm)
+		for _, o := range tmp6.Obs {
+			if strings.Contains(o.Construct, "source") {
+				c := *o
+				c.Construct = "[" + o.Rule + "] " + o.Construct
+				c.Rule = "C07.Q4"
+				rep.Obs = append(rep.Obs, &c)
+				n++
+			}
 		}
 	}
 	rep.MinCount("C07.Q4", "coverage obligations for Range and the copy routine", n, 6)
@@ -672,4 +689,118 @@ func c07Q1Collect(r *Run, rep *core.Report, f *ssa.Function) {
 		return
 	}
 	rep.Check(bad == "", "C07.Q1", fn(f)+" collects every occupied slot", pos, "every slot that tests non-nil reaches an append to the intermediate slice before the scan moves on", bad)
+}
+
+// c07Q6: the traversal ends only where it must: every return of Range is reached either because the bucket array is
+// exhausted (a loop-bound test against its length / a range step), because the visitor said stop, or because there is
+// no visitor (nil). A return behind any other condition - a budget of entries to visit taken from the size counter, a
+// deadline, a flag - skips entries that were present all along.
+func c07Q6(r *Run, rep *core.Report, mm *core.MapModel) {
+	f := mm.Methods["Range"]
+	if f == nil {
+		return
+	}
+	fns := []*ssa.Function{f}
+	isVisitorCall := func(v ssa.Value) bool {
+		for {
+			if u, ok := v.(*ssa.UnOp); ok && u.Op == token.NOT {
+				v = u.X
+				continue
+			}
+			break
+		}
+		c, ok := v.(*ssa.Call)
+		if !ok || core.Callee(c) != nil || c.Call.IsInvoke() {
+			return false
+		}
+		_, isP := c.Call.Value.(*ssa.Parameter)
+		return isP
+	}
+	var lenBased func(v ssa.Value, d int) bool
+	lenBased = func(v ssa.Value, d int) bool {
+		if d > 6 {
+			return false
+		}
+		switch x := core.StripConv(v).(type) {
+		case *ssa.Call:
+			// the length of the bucket array (not of the collected entries or anything else)
+			if core.IsBuiltinCall(x) == "len" && len(x.Call.Args) == 1 {
+				if sl, ok := x.Call.Args[0].Type().Underlying().(*types.Slice); ok && isBucketType(r, sl.Elem()) {
+					return true
+				}
+			}
+			return false
+		case *ssa.BinOp:
+			return lenBased(x.X, d+1) || lenBased(x.Y, d+1)
+		case *ssa.Extract:
+			_, isNext := x.Tuple.(*ssa.Next)
+			return isNext
+		case *ssa.Phi:
+			for _, e := range x.Edges {
+				if lenBased(e, d+1) {
+					return true
+				}
+			}
+		}
+		return false
+	}
+	okCond := func(cond ssa.Value) bool {
+		if isVisitorCall(cond) {
+			return true
+		}
+		v := cond
+		for {
+			if u, ok := v.(*ssa.UnOp); ok && u.Op == token.NOT {
+				v = u.X
+				continue
+			}
+			break
+		}
+		if b, ok := v.(*ssa.BinOp); ok {
+			// nil visitor
+			for _, pair := range [][2]ssa.Value{{b.X, b.Y}, {b.Y, b.X}} {
+				if _, isP := core.StripConv(pair[0]).(*ssa.Parameter); isP && core.IsNilConst(pair[1]) {
+					return true
+				}
+			}
+			return lenBased(b, 0)
+		}
+		if ex, ok := v.(*ssa.Extract); ok {
+			_, isNext := ex.Tuple.(*ssa.Next)
+			return isNext
+		}
+		return false
+	}
+	n := 0
+	for _, g := range fns {
+		core.Instrs(g, func(in ssa.Instruction) {
+			ret, ok := in.(*ssa.Return)
+			if !ok {
+				return
+			}
+			n++
+			// the branches through which the return's block is entered (walking back over unconditional edges)
+			bad := ""
+			seen := map[*ssa.BasicBlock]bool{}
+			var back func(b *ssa.BasicBlock, depth int)
+			back = func(b *ssa.BasicBlock, depth int) {
+				if seen[b] || depth > 8 {
+					return
+				}
+				seen[b] = true
+				for _, p := range b.Preds {
+					if iff, ok := p.Instrs[len(p.Instrs)-1].(*ssa.If); ok {
+						if !okCond(iff.Cond) && bad == "" {
+							bad = "the return at " + r.P.InstrPos(ret) + " is taken on a condition (" + iff.Cond.String() + " at " + r.P.InstrPos(iff) + ") that is neither the end of the bucket array nor the visitor's verdict"
+						}
+						continue
+					}
+					back(p, depth+1)
+				}
+			}
+			back(ret.Block(), 0)
+			rep.Check(bad == "", "C07.Q6", fmt.Sprintf("%s exit#%d ends the traversal only when it must", fn(g), exitOrdinals(g)[ret]), r.P.InstrPos(ret), "reached at the end of the bucket array or on the visitor's false", bad+": entries present during the whole traversal can be skipped")
+		})
+	}
+	rep.MinCount("C07.Q6", "returns of "+fn(f), n, 1)
 }
